@@ -161,7 +161,11 @@ static void e1_case(const char *mode, long long idx, int nagents, const std::vec
 	begin_case(mode, idx);
 	Log L; g_log = &L; g_ts = 0; g_node_ids.clear(); g_seqmx_held = 0;
 	for(auto &x : g_running_agent) x = -1;
-	auto *dom = new frg::qs_domain<SeqMx>();
+	// every fourth case starts the domain a few periods below 2^32 (verification-only constructor), so the run crosses the point
+	// where a 32-bit intermediate would wrap
+	uint64_t first_counter = (idx % 4 == 3) ? 0x100000000ull - 1 - (uint64_t)(idx % 5) : 1;
+	if(first_counter != 1) count("e1_cases_across_2^32_periods");
+	auto *dom = first_counter == 1 ? new frg::qs_domain<SeqMx>() : new frg::qs_domain<SeqMx>(first_counter);
 	Ops<SeqMx> o; o.dom = dom; o.ag.resize(nagents);
 	admissible = true;
 	g_rearm = [&](int a) { o.await(a, false); }; g_rearm_count = 0;
@@ -256,7 +260,12 @@ static void e3_run(const char *mode, long long idx, const std::vector<Script> &s
 	Log L; g_log = &L; g_ts = 0; g_node_ids.clear();
 	for(auto &x : g_running_agent) x = -1;
 	using M = sched::SchedMutex;
-	auto *dom = new frg::qs_domain<M>();
+	// a third of the DFS spaces (fixed per space: every schedule of a space must replay the same program) and a quarter of the
+	// random schedules start the domain just below 2^32 periods
+	bool is_dfs = !strncmp(mode, "e3:dfs", 6);
+	uint64_t first_counter = (is_dfs ? (hash_str(mode) % 3 == 0) : (idx % 4 == 3)) ? 0x100000000ull - 1 - (uint64_t)(hash_str(mode) % 3) : 1;
+	if(first_counter != 1) count("e3_schedules_across_2^32_periods");
+	auto *dom = first_counter == 1 ? new frg::qs_domain<M>() : new frg::qs_domain<M>(first_counter);
 	Ops<M> o; o.dom = dom; o.ag.resize(nw);
 	sched::g_smx = {};
 	// agents are created (and go online) by the driver thread before the workers start
